@@ -40,6 +40,12 @@ SeqMax(s) == MaxOf(LAMBDA k : s[k], 1..Len(s), 0)
 Boundaries(d, st) == << SeqMin(TimeSeq(d, st)), SeqMax(TimeSeq(d, st)),
                         SeqMin(LatSeq(d, st)), SeqMax(LatSeq(d, st)),
                         SeqMin(LonSeq(d, st)), SeqMax(LonSeq(d, st)) >>
+\* the window reported for the current view, handed back to set_window (data.set_window(data.window())):
+\* the bounds lie exactly on the outermost selected samples / nodes; an axis on which the view is a single
+\* value has coinciding bounds and is therefore selected completely
+CurrentWindow(d, st) == LET b == Boundaries(d, st) IN
+  [tmin |-> b[1], tmax |-> b[2], latmin |-> b[3], latmax |-> b[4], lonmin |-> b[5], lonmax |-> b[6]]
+SetWindowCurrent(d, st) == SetWindow(d, st, CurrentWindow(d, st))
 \* phases of the annual cycle: sample a (1-based position in the view) is in phase
 \* ((a-1) mod cycle) + 1; only complete years are listed by phase_indices (0-based)
 Years(d, st) == Len(st.t) \div d.cycle
